@@ -26,7 +26,7 @@ COMMON_ASSUME = [
 PROPS = {}
 
 PROPS["C01"] = {
-    "legs": [rapid("hist", "pstree", "TestC01Hist", 4, 1500, 16, 20000)],
+    "legs": [rapid("hist", "pstree", "TestC01Hist", 8, 4000, 16, 40000)],
     "rule": "rapid draws a history as data (beta in {0,1,50,250,500,999,1000} or uniform 0..1000; unsorted, duplicated "
             "initial keys for New; <=60 ops among Add/Replace/Remove/Get/Clear/Clone/switch/Inorder(stop)/InorderAfter "
             "(present, absent, below min, above max) plus macro ops: ascending/descending/zig-zag runs, drains "
@@ -52,6 +52,36 @@ PROPS["C02"] = {
             "every n up to a bound and beta in {0,250,999}: height == floor(log2 n); non-trivial = n is a power of "
             "two or one less.",
     "assumptions": COMMON_ASSUME,
+}
+
+PROPS["C03"] = {
+    "legs": [rapid("cursor", "pstree", "TestC03Cursor", 4, 600, 16, 6000)],
+    "rule": "a tree is built by a C01-style history (beta biased to 500/900/1000 so that skewed shapes occur; runs and "
+            "adversarial deep inserts), then: (a) Cursor(key) for every key and for absent keys below/above/inside the "
+            "range; (b) a structural recursion from Root using only Clone/Left/Right that reconstructs the shape and "
+            "checks that every cursor's Inorder is a contiguous ascending window of the sorted set equal to "
+            "Inorder(left)+key+Inorder(right), that Min/Max are the window ends, Left/Right-then-Up returns to the "
+            "origin, HasLeft/HasRight/HasParent predict validity; (c) from every key (every 7th above 80 keys) the "
+            "Next chain to the end and the Prev chain to the start with HasNext/HasPrev, staying invalid afterwards; "
+            "(d) up to 60 random moves (left/right/up/min/max/next/prev/goto/clone/switch/inorder-with-stop) on two "
+            "cursors tracked against the reconstructed shape, both cursors observed after every move (clone "
+            "independence); (e) nil and invalidated cursors are no-ops yielding the zero key. NON-TRIVIAL iff the tree "
+            "has height >= 4 and some node's successor is a proper ancestor >= 2 levels up. Distinct = hash of the case JSON.",
+    "assumptions": COMMON_ASSUME,
+}
+
+PROPS["C04"] = {
+    "legs": [rapid("hist", "pstree", "TestC04Hist", 4, 2500, 16, 25000)],
+    "rule": "histories of <=50(+9) ops on two copies of one omap.Map value (ops alternate between the copies): "
+            "Set/Delete/Clear/Get/GetOK on present, absent-below, absent-above and absent-inside keys; iterator "
+            "programmes First/Last/Seek(k)/Iter.Seek(k) followed by Next/Prev walks, the documented "
+            "delete-current-then-Seek idiom; comparators natural, reversed and k/2 (two-key equivalence classes); "
+            "the zero Map (Set must panic, everything else behaves as an empty map). After every op: Len, Keys, "
+            "String on both copies, a full First..Next and Last..Prev sweep, and the tracked iterator's "
+            "IsValid/Key/Value against a sorted reference (an iterator is only used while no edit happened since it "
+            "was positioned, as the package doc requires). NON-TRIVIAL iff a Seek to an absent key strictly inside the "
+            "key range is followed by a Prev on a map that has seen a Delete. Distinct = hash of the case JSON.",
+    "assumptions": COMMON_ASSUME + ["under the k/2 comparator only comparator-equivalence of reported keys is required, not which representative is stored"],
 }
 
 # Properties deliberately not claimed (reason shown in MANIFEST.not_applicable).
